@@ -5,9 +5,12 @@ from lltdgen import *
 import vcommon as V
 
 EXPECT_KEYS = set()
-# True: the projection compared with the model is functionally determined by the specification (theorem), so a
-# disagreement is itself a failing input; False: only the property's own oracles decide that
-CORR_IS_SPEC = True
+# True: the projection compared with the model is functionally determined by the PROPERTY TEXT, so a disagreement is
+# itself a failing input; False (default): the model is more specific than the property (byte layout of unspecified
+# fields, order of list entries, slot indices, timestamps) - a disagreement then only means that the proofs no longer
+# speak about this code (VIOLATION ... no-failing-input-found) and the property's own oracles decide whether a
+# concrete failing input exists.
+CORR_IS_SPEC = False
 COMMON_TB = [
     'Coq 8.16.1 kernel + vm_compute (no native_compute); hand-written executable Gallina model coq/model/*.v of the C control flow',
     'translator harness/probe.c + bin/genfacts.py (gcc layouts, #defines, tables dumped by executing init_automata_*) -> coq/gen/Extracted.v, regenerated each run',
